@@ -515,12 +515,15 @@ Proof.
     + intros t loc j m Ht _. exact (NC2 _ _ _ Ht).
 Qed.
 
+Lemma clock_idle_unclaimed x : clock_b x = true -> idle_unclaimed_b x = true.
+Proof. unfold clock_b. intros H. apply andb_true_iff in H. destruct H as [H _]. apply andb_true_iff in H. tauto. Qed.
+
 (* ---------- every run: jobs in a pre-buffer wait for their next operation there ---------- *)
 Theorem run_pre_ok fuel x0 joker0 ta r m :
-  clock_b x0 = true -> wfs_b i x0 = true -> fresh2_b i x0 = true -> nodep_b x0 = true -> idle_unclaimed_b x0 = true ->
+  clock_b x0 = true -> wfs_b i x0 = true -> fresh2_b i x0 = true -> nodep_b x0 = true ->
   pre_ok_b x0 = true -> reach sigma i fuel x0 joker0 ta r m -> pre_ok_b (r_x r) = true.
 Proof.
-  intros C W Fr D Iu Po H. apply NO_iff_clock_b in C.
+  intros C W Fr D Po H. pose proof (clock_idle_unclaimed _ C) as Iu. apply NO_iff_clock_b in C.
   destruct (reach_reachG sigma i Hnn J8 Q8 side2 OK8 BI J8_apply J8_now E8_end BI_now Q8_timed Q8_timed0 Q8_offer offers_ok8
               _ _ _ _ _ _ C (J8_init _ W Fr D Iu Po) (BI_init _ D) H) as [_ [_ [xq [Nq [[_ [_ [Pq _]]] [E|[_ [z E]]]]]]]]; rewrite E.
   - apply pre_ok_b_PRE; auto.
@@ -528,11 +531,11 @@ Proof.
 Qed.
 
 Theorem run_micro_pre_ok fuel x0 joker0 ta r m a r' m' lg :
-  clock_b x0 = true -> wfs_b i x0 = true -> fresh2_b i x0 = true -> nodep_b x0 = true -> idle_unclaimed_b x0 = true ->
+  clock_b x0 = true -> wfs_b i x0 = true -> fresh2_b i x0 = true -> nodep_b x0 = true ->
   pre_ok_b x0 = true -> reach sigma i fuel x0 joker0 ta r m -> mw_step sigma i fuel r m a = MOk r' m' lg ->
   forall tr y, In (tr, y) lg -> pre_ok_b y = true.
 Proof.
-  intros C W Fr D Iu Po H Hm tr y Hin. apply NO_iff_clock_b in C.
+  intros C W Fr D Po H Hm tr y Hin. pose proof (clock_idle_unclaimed _ C) as Iu. apply NO_iff_clock_b in C.
   destruct (reach_micro_J sigma i Hnn J8 Q8 side2 OK8 BI J8_apply J8_now E8_end BI_now Q8_timed Q8_timed0 Q8_offer offers_ok8
               _ _ _ _ _ _ _ _ _ _ C (J8_init _ W Fr D Iu Po) (BI_init _ D) H Hm _ _ Hin) as [[_ [_ [Py _]]] _].
   apply pre_ok_b_PRE; auto.
